@@ -165,9 +165,12 @@ async def run_with_oracles(window, pktsize, direction, ops, report):
             toks = list(P['rsess'].toks)
             data_toks = [t for t in toks if t[0] == 'B']
             if data_toks != written:
-                report('C07' if len(data_toks) > len(written) or data_toks != written[:len(data_toks)] else 'C08',
-                       'after draining both wires with the reader reading, delivered != written '
-                       f'({len(data_toks)} of {len(written)} bytes)', {'delivered': len(data_toks), 'written': len(written)})
+                # a shortfall is both lost data (C07: complete) and a stalled transfer (C08: every written
+                # byte is eventually delivered while the reader keeps reading)
+                for kind in ('C07', 'C08'):
+                    report(kind, 'after draining both wires with the reader reading, delivered != written '
+                           f'({len(data_toks)} of {len(written)} bytes)',
+                           {'delivered': len(data_toks), 'written': len(written)})
             issued_eof = any(o[0] == 'E' for o in ops) and not any(o[0] == 'C' for o in ops)
             first_ctl = next((o[0] for o in ops if o[0] in 'EC'), None)
             if first_ctl == 'E' and not any(o[0] == 'C' for o in ops) and ('E',) not in toks:
